@@ -27,8 +27,8 @@ MANIFEST = {
             "whole-minute offset -12:00..+14:00 (signed/unsigned, with/without .MM, any newline-free zone name) converts to the UTC value of the "
             "denoted instant; every accepted text is in the notation and denotes the returned instant (so wrong length, month 13, day 0/32, hour 24, "
             "minute 60 and letters are rejected); the writer's output has the shape [YYYYMMDD]HHMMSS.XXX[+-h[.mm][:name]] and reading it back gives "
-            "the original instant to within half a millisecond (after the proposed repair of -0.MM offsets, no guard); naive values are refused. "
-            "The model is tied to Types.py/utils.py by evaluating it with vm_compute on the same ~2*10^4 (thorough ~3*10^5) texts and values as the implementation.",
+            "the original instant to within half a millisecond (after the repair 61f0c78 of -0.MM offsets, no guard); naive values are refused. "
+            "The model is tied to Types.py/utils.py by evaluating it with vm_compute on the same ~2.3*10^4 (thorough ~5.4*10^5) texts and values as the implementation; the Coq reference denote_dt/denote_tm is compared with the implementation on the same run.",
     "note": "Trusted: Coq kernel + vm_compute; the hand transcriptions Model/Calendar.v, Model/DateTimeM.v (validated by the correspondence run only); the TZS / "
             "decimal-digit table translator. Print Assumptions: closed under the global context.",
 }
